@@ -103,7 +103,31 @@ BOX = [(0.15, 0.85), (0.3, 2.8), (0.25, 5.0)]
 
 
 def point(rng, ld):
-    return [rat(rng, BOX[k][0], BOX[k][1], 64) for k in range(ld)]
+    pt = [rat(rng, BOX[k][0], BOX[k][1], 64) for k in range(ld)]
+    if ld > 1 and rng.random() < 0.4:
+        # special angles inside the box: a pivot of the Jacobian (cos x2, sin x2 cos x3, …) vanishes there
+        # although the mapping is regular (seeded change C16-5: an inverse computed by LU is 0/0 there)
+        import sympy
+        k = rng.randrange(1, ld)
+        pt[k] = rng.choice([sympy.pi / 2, sympy.pi / 2, sympy.pi] if k == 1 else [sympy.pi / 2, sympy.pi, 3 * sympy.pi / 2])
+    return pt
+
+
+def regular_point(rng, ld, Jref, coords):
+    """a point of the box, sometimes with a special angle, at which the mapping is regular"""
+    import sympy
+    pt = point(rng, ld)
+    if any(not sympy.sympify(p_).is_Rational for p_ in pt):
+        try:
+            Jr = Jref.xreplace(dict(zip(coords, pt)))
+            G = (Jr.T * Jr).det()
+            ok = bool(abs(sympy.N(G, 30)) > sympy.Rational(1, 10 ** 4))
+        except Exception:
+            ok = False
+        if not ok:
+            while any(not sympy.sympify(p_).is_Rational for p_ in pt):
+                pt = point(rng, ld)
+    return pt
 
 
 def exact(e):
@@ -392,7 +416,7 @@ def check_symbolic(o, tag, m, rng, detail):
         o.fail('jac-shape:' + tag, 'stored Jacobian has shape %s, expected (%d, %d)' % (J.shape, m.pdim, m.ldim), **detail)
         return
     for _ in range(2):
-        pt = point(rng, m.ldim)
+        pt = regular_point(rng, m.ldim, Jref.xreplace(consts), coords)
         subs = dict(zip(coords, pt))
         subs.update(consts)
         Jv, Jr = ev_matrix(J, subs), ev_matrix(Jref, subs)
@@ -412,7 +436,12 @@ def check_symbolic(o, tag, m, rng, detail):
         if m.jacobian_inv_expr is not None:
             if abs(Jr.det()) < Rational(1, 1000):
                 continue
-            P = Jr * ev_matrix(m.jacobian_inv_expr, subs)
+            Ji = ev_matrix(m.jacobian_inv_expr, subs)
+            if any(x.has(sympy.nan, sympy.zoo, sympy.oo) or not x.is_finite for x in Ji):
+                o.fail('jac_inv-undefined:' + tag, 'the stored inverse Jacobian has no finite value (%s) at a point where det J = %s'
+                       % ([str(x) for x in Ji], sympy.N(Jr.det(), 8)), **where)
+                return
+            P = Jr * Ji
             I = sympy.eye(m.ldim)
             if max(abs(a - b) for a, b in zip(P, I)) > t_exact * 1000 * max(1, max(abs(x) for x in Jr.inv())) * max(1, max(abs(x) for x in Jr)):
                 o.fail('jac_inv:' + tag, 'J times the stored inverse Jacobian is not the identity', product=str(P), **where)
@@ -437,7 +466,7 @@ def check_callable(o, tag, m, rng, detail, big):
     qs = quantities_of(F, m)
     # points
     for _ in range(3 if big else 2):
-        pt = point(rng, ld)
+        pt = regular_point(rng, ld, Jref, coords)
         subs = dict(zip(coords, pt))
         Jr = ev_matrix(Jref, subs)
         detJ = abs(float((Jr.T * Jr).det())) ** 0.5
@@ -461,6 +490,13 @@ def check_callable(o, tag, m, rng, detail, big):
                 return
             ref = refs[label]
             stored = ev_matrix(expr, subs) if hasattr(expr, 'shape') else ev(expr, subs)
+            try:
+                [float(v_) for v_ in (list(stored) if hasattr(stored, 'shape') else [stored])]
+            except TypeError:
+                # the 50-digit evaluation of the stored expression at an exact special angle is not a real
+                # number (sympy's N on 0·∞ patterns): nothing can be concluded from this point
+                o.count('special-point-not-evaluable:' + label)
+                continue
             comp = tuple(expr.shape) if hasattr(expr, 'shape') else ()
             if shp(got) != comp:
                 o.fail('shape:%s:%s' % (label, tag), '%s at a scalar point has shape %s, expected the component shape %s' % (label, shp(got), comp),
@@ -469,7 +505,7 @@ def check_callable(o, tag, m, rng, detail, big):
             g = np.asarray(got, dtype=float).reshape(-1)
             for refname, R in (('the stored symbolic quantity', stored), ('the quantity derived from the coordinate expressions', ref)):
                 r = [R] if not comp else list(R)
-                sc = max(abs(float(v)) for v in r)
+                sc = max(max(abs(float(v)) for v in r), 1.0)      # absolute floor: a component can vanish at a special angle
                 for a, b in zip(g, r):
                     if not close(a, b, sc):
                         o.fail('value:%s:%s' % (label, tag), 'callable %s differs from %s beyond the tolerance %g: got %r, exact %s'
@@ -515,7 +551,7 @@ def check_callable(o, tag, m, rng, detail, big):
                 subs = dict(zip(coords, pt))
                 R = ev_matrix(expr, subs) if comp else ev(expr, subs)
                 r = list(R) if comp else [R]
-                sc = max(abs(float(v)) for v in r)
+                sc = max(max(abs(float(v)) for v in r), 1.0)      # absolute floor: a component can vanish at a special angle
                 gv = got[(Ellipsis,) + idx].reshape(-1) if comp else got[idx].reshape(-1)
                 for a, bb in zip(gv, r):
                     if not close(a, bb, sc):
